@@ -2,6 +2,7 @@ SPECIFICATION Spec
 CONSTANTS
   NumRuns = 2
   NumGens = 2
-INVARIANTS EvalOrder FreshPopulations StopAfterSolved TrialsInOrder Recorded ObserverProtocol NoObserverNoCalls Final SolvedNotTurnedOver
+  ObserverCancels = TRUE
+INVARIANTS NoEvalAfterObserverCancel EvalOrder FreshPopulations StopAfterSolved TrialsInOrder Recorded ObserverProtocol NoObserverNoCalls Final SolvedNotTurnedOver
 PROPERTIES Terminates
 CHECK_DEADLOCK FALSE
